@@ -208,7 +208,10 @@ func (l *Layout) Valid(fwLen int) error {
 		if s.MemBase%Page != 0 || s.MemSize%Page != 0 {
 			return fmt.Errorf("section %d: memory range not page aligned", i)
 		}
-		if s.MemSize == 0 {
+		if s.MemSize == 0 && s.Type != TypeTempMem {
+			// Only temporary memory may be declared with no pages: it then contributes its resource
+			// descriptor (length 0) in declared order and nothing else. An empty firmware volume or
+			// TD-HOB is not valid metadata.
 			return fmt.Errorf("section %d: empty memory range", i)
 		}
 		if s.MemBase+s.MemSize < s.MemBase {
@@ -245,6 +248,9 @@ func (l *Layout) Valid(fwLen int) error {
 	for i := range l.Sections {
 		for j := i + 1; j < len(l.Sections); j++ {
 			a, b := l.Sections[i], l.Sections[j]
+			if a.MemSize == 0 || b.MemSize == 0 {
+				continue // an empty range intersects nothing
+			}
 			if a.MemBase < b.End() && b.MemBase < a.End() {
 				return fmt.Errorf("sections %d and %d overlap in memory", i, j)
 			}
@@ -287,6 +293,9 @@ func Unaccepted(secs []Section, banks []Range) []Range {
 	for _, b := range bs {
 		cuts := []uint64{b.Start, b.End()}
 		for _, s := range secs {
+			if s.MemSize == 0 {
+				continue // empty sections cover nothing and do not cut the bank
+			}
 			if s.MemBase > b.Start && s.MemBase < b.End() {
 				cuts = append(cuts, s.MemBase)
 			}
